@@ -985,7 +985,8 @@ def region_opt(keys):
 
 
 def bounds_case(seed, i, engine):
-    """The four repairs of /repo 146f0bb, 5f2847c, f2a549c, 5b8c053, deterministically on every engine (tikv: split into
+    """The repairs of /repo 146f0bb, 23c8b93 (bounds with any byte at or below '$'), 5f2847c, f2a549c, 5b8c053,
+    deterministically on every engine (tikv: split into
     regions): paging with every page size through prefix-related keys (a key, its extension, its sibling) at the current
     and at an old revision; the single-key range [k, k\x00) of live / deleted / missing keys; counts over such bounds;
     count_only at explicit revisions — current, old, and (after the node's own compaction) below the floor, where it must
@@ -1014,6 +1015,22 @@ def bounds_case(seed, i, engine):
                       render_range(lo, S(k), rev=rev, limit=1), render_range(lo, S(k), rev=rev, flags="c")]   # up to and including k
         a, b = sorted(r.sample(keys, 2))
         lines += [render_range(S(a), S(b), rev=rev), render_range(S(a), S(b), rev=rev, flags="c")]
+        # bounds with OTHER bytes at or below '$' (/repo 23c8b93): k+\x01, k+'#', k+'$', k+\x00\x00, k+\x00+'b', ...:
+        # [k, k+low) is exactly k; [k+low, hi) everything after k, not k; [lo, k+low) up to and including k;
+        # [k+low1, k+low2) and [k\x00, k+low) nothing; a bound STARTING with a low byte lies below every key
+        for k in r.sample(keys, 2) + [b"/r/zz"]:
+            lows = hist.low_bounds(k, r, 3)
+            for L in lows:
+                lines += [render_range(k, L, rev=rev), render_range(k, L, rev=rev, flags="c"),
+                          render_range(L, hi, rev=rev, limit=r.choice([0, 1])), render_range(L, hi, rev=rev, flags="c"),
+                          render_range(lo, L, rev=rev, limit=r.choice([0, 2])), render_range(lo, L, rev=rev, flags="c")]
+            a, b = sorted(r.sample(lows, 2))
+            lines += [render_range(a, b, rev=rev), render_range(S(k), max(lows), rev=rev, flags="c")]
+            a, b = sorted([r.choice(lows), r.choice(hist.low_bounds(r.choice(keys)))])
+            lines += [render_range(a, b, rev=rev), render_range(a, b, rev=rev, flags="c")]
+        for H in r.sample(hist.LOW_HEADS, 3):
+            lines += [render_range(H, hi, rev=rev, limit=r.choice([0, 2])), render_range(H, hi, rev=rev, flags="c"),
+                      render_range(H, r.choice(keys) + r.choice(hist.LOW_TAILS), rev=rev)]
     # count_only at explicit revisions: every revision of the history once
     for rev in r.sample(range(INIT + 1, sh.dealt + 1), 6) + [sh.dealt]:
         if rev != MAGIC:
